@@ -203,6 +203,9 @@ func runHistory(dir string, h *History, run Run) []obs {
 			}
 		}()
 		out = append(out, o)
+		if os.Getenv("C02DBG") == "roots" {
+			fmt.Fprintf(os.Stderr, "bits=%d direct=%v op=%d code=%d root=%x %s\n", run.Bits, run.Direct, i+1, o.code, o.root, o.msg)
+		}
 		if o.code == 0 {
 			roots[i+1], have[i+1] = o.root, true
 		}
@@ -354,7 +357,18 @@ func emitCase(o *hlib.Out, h *History, all [][]obs) {
 		}
 	}
 	nontrivial = nUpd >= 3 && len(cl.seen) >= 2
-	term := hlib.App("CASE", hlib.ListHx(t.list), hlib.List(ops), hlib.List(runs))
+	// position of every root class in the byte order of the root hashes
+	ranks := make([]string, len(cl.seen))
+	for i, a := range cl.seen {
+		n := 0
+		for _, b := range cl.seen {
+			if bytes.Compare(b, a) < 0 {
+				n++
+			}
+		}
+		ranks[i] = fmt.Sprintf("%d%%N", n)
+	}
+	term := hlib.App("CASE", hlib.ListHx(t.list), hlib.List(ranks), hlib.List(ops), hlib.List(runs))
 	o.Emit(h.Kind, nontrivial, term, h, map[string]interface{}{"runs": impl, "distinctRoots": len(cl.seen), "maxSize": maxSize})
 }
 
@@ -397,6 +411,10 @@ func genHistory(r *hlib.Rng, class string) *History {
 		nops, nkeys, maxw, nh = r.Range(4, 9), r.Range(3, 6), 3, r.Range(1, 3)
 	case "rewrite":
 		nops, nkeys, maxw, nh = r.Range(4, 8), r.Range(2, 5), 3, r.Range(2, 3)
+	case "alias":
+		// large trees (root height > 2: ARC-cached), few block heights (the prune bookkeeping
+		// reloads the roots of a height), many updates without writes: known findings 2 and 3
+		nops, nkeys, maxw, nh, mixed = r.Range(8, 14), r.Range(8, 14), 4, r.Range(1, 2), false
 	default: // mixed-large
 		nops, nkeys, maxw, nh = r.Range(8, 16), r.Range(8, 16), 8, r.Range(1, 4)
 	}
@@ -407,7 +425,7 @@ func genHistory(r *hlib.Rng, class string) *History {
 			return 0
 		}
 		// mostly the most recent committed roots, sometimes an old one (fork)
-		if r.Chance(1, 2) {
+		if r.Chance(1, 2) && class != "alias" {
 			return g.committed[len(g.committed)-1]
 		}
 		return g.committed[r.Intn(len(g.committed))]
@@ -420,7 +438,7 @@ func genHistory(r *hlib.Rng, class string) *History {
 		if len(g.ops) == 0 && nkeys > 6 {
 			n = r.Range(nkeys/2, nkeys) // a first tree of height > 2
 		}
-		if r.Chance(1, 15) {
+		if r.Chance(1, 15) || (class == "alias" && len(g.ops) > 1 && r.Chance(2, 5)) {
 			n = 0
 		}
 		rewrite := (class == "rewrite" && r.Chance(1, 2)) || r.Chance(1, 8)
@@ -638,7 +656,7 @@ func main() {
 	plan := []struct {
 		class string
 		n     int
-	}{{"guarded-small", 6}, {"rewrite", 8}, {"mixed-small", 8}, {"guarded-large", 5}, {"mixed-large", 8}}
+	}{{"guarded-small", 5}, {"rewrite", 7}, {"mixed-small", 7}, {"guarded-large", 4}, {"alias", 6}, {"mixed-large", 7}}
 	if opts.Thorough() {
 		for i := range plan {
 			plan[i].n *= 25
